@@ -43,6 +43,16 @@ theorem GF_render {s X w0 w} (d : Nat) (h : GF s X w0 w) (hd : (w.objs d).finali
   obtain ⟨hg, ⟨f1, f2, f3, f5⟩⟩ := h
   exact ⟨G_render d hg hd, ⟨f1, f2, f3, f5⟩⟩
 
+theorem GF_renderEnd {s X w0 w} (d : Nat) (h : GF s X w0 w) (hd : (w.objs d).finalized = false) :
+    GF s X w0 (apply (.renderEnd d) w) := by
+  obtain ⟨hg, ⟨f1, f2, f3, f5⟩⟩ := h
+  exact ⟨G_renderEnd d hg hd, ⟨f1, f2, f3, f5⟩⟩
+
+theorem GF_logCb {s X w0 w} (o : Option Exc) (h : GF s X w0 w) : GF s X w0 (apply (.logCb o) w) := by
+  obtain ⟨hg, ⟨f1, f2, f3, f5⟩⟩ := h
+  exact ⟨G_same (w := w) (w' := apply (.logCb o) w) ⟨rfl, rfl, fun _ => by simp [apply], fun _ => by simp [apply]⟩ hg,
+    ⟨f1, f2, f3, f5⟩⟩
+
 theorem GF_closeW {s X w0 w} (i : Nat) (h : GF s X w0 w) (hi : i < w.nIters) : GF s X w0 (closeW i w) := by
   obtain ⟨hg, ⟨f1, f2, f3, f5⟩⟩ := h
   refine ⟨G_closeW i hg hi, ?_⟩
@@ -95,6 +105,17 @@ variable (w : World) (i j d : Nat) (f : Ctl → Ctl)
 @[simp] theorem render_ffw : (apply (.render d) w).ffw = w.ffw := rfl
 @[simp] theorem render_finalized : ((apply (.render d) w).objs j).finalized = (w.objs j).finalized := by
   by_cases h : j = d <;> simp [apply, h]
+@[simp] theorem logCb_objs (o : Option Exc) : (apply (.logCb o) w).objs = w.objs := rfl
+@[simp] theorem logCb_iters (o : Option Exc) : (apply (.logCb o) w).iters = w.iters := rfl
+@[simp] theorem logCb_nObjs (o : Option Exc) : (apply (.logCb o) w).nObjs = w.nObjs := rfl
+@[simp] theorem logCb_nIters (o : Option Exc) : (apply (.logCb o) w).nIters = w.nIters := rfl
+@[simp] theorem logCb_fc (o : Option Exc) : (apply (.logCb o) w).fc = w.fc := rfl
+@[simp] theorem renderEnd_iters : (apply (.renderEnd d) w).iters = w.iters := rfl
+@[simp] theorem renderEnd_nObjs : (apply (.renderEnd d) w).nObjs = w.nObjs := rfl
+@[simp] theorem renderEnd_nIters : (apply (.renderEnd d) w).nIters = w.nIters := rfl
+@[simp] theorem renderEnd_fc : (apply (.renderEnd d) w).fc = w.fc := rfl
+@[simp] theorem renderEnd_finalized : ((apply (.renderEnd d) w).objs j).finalized = (w.objs j).finalized := by
+  by_cases h : j = d <;> simp [apply, h]
 @[simp] theorem write_id : apply .write w = w := rfl
 @[simp] theorem validate_id : apply .validate w = w := rfl
 @[simp] theorem resolve_id : apply .resolvePad w = w := rfl
@@ -110,6 +131,8 @@ macro "gf" : tactic =>
       | apply GF_ctl
       | apply GF_markDropped
       | apply GF_setFfw
+      | apply GF_logCb
+      | apply GF_renderEnd
       | apply GF_render))
     <;> (try simp) <;> (try assumption) <;> (try omega) <;> done))
 
@@ -132,15 +155,6 @@ macro "wpgo" : tactic =>
       | apply And.intro
       | intro _))
 
-theorem renderStep_spec {s X w0 w} (i : Nat) (b : Bool) (h : GF s X w0 w)
-    (hfin : (w.objs (w.iters i).data).finalized = false) :
-    wp sem (injS s) (renderStep i) b (fun _ w' => GF s X w0 w')
-      (fun _ _ w' => GF s X w0 w') w := by
-  unfold renderStep
-  wpgo
-  all_goals wpgo
-  all_goals gf
-
 /-- continuation-passing form of a spec -/
 theorem cps {s X w0 w} {p : P} {b : Bool} (hw : GF s X w0 w)
     (h : wp sem (injS s) p b (fun _ w' => GF s X w0 w') (fun _ _ w' => GF s X w0 w') w)
@@ -152,17 +166,55 @@ theorem cps {s X w0 w} {p : P} {b : Bool} (hw : GF s X w0 w)
     (fun b' w' h' => hn b' w' h' (by rw [h'.fr.nIters, hw.fr.nIters]) (by rw [h'.fr.nObjs, hw.fr.nObjs]))
     (fun b' e w' h' => hx b' e w' h' (by rw [h'.fr.nIters, hw.fr.nIters]) (by rw [h'.fr.nObjs, hw.fr.nObjs])) h
 
-theorem genBody_spec {s X w0 w} (i : Nat) (b : Bool) (h : GF s X w0 w)
+theorem cbPart_spec {s X w0 w} (i d : Nat) (cb : Option CbKind) (b : Bool) (h : GF s X w0 w)
+    (hd : (w.objs d).finalized = false) :
+    wp sem (injS s) (cbPart i d cb) b (fun _ w' => GF s X w0 w') (fun _ _ w' => GF s X w0 w') w := by
+  cases cb with
+  | none => simpa [cbPart, wp] using h
+  | some k =>
+    cases k with
+    | close =>
+      simp only [cbPart, cbProg, reCloseP]
+      wpgo
+      all_goals gf
+    | next =>
+      simp only [cbPart, cbProg, reCloseP, reNextP]
+      wpgo
+      all_goals gf
+    | seek wh off =>
+      simp only [cbPart, cbProg, seekP]
+      wpgo
+      all_goals gf
+
+section
+attribute [local irreducible] cbPart
+theorem renderStep_spec {s X w0 w} (i : Nat) (cb : Option CbKind) (b : Bool) (h : GF s X w0 w)
     (hfin : (w.objs (w.iters i).data).finalized = false) :
-    wp sem (injS s) (genBody i) b (fun _ w' => GF s X w0 w') (fun _ _ w' => GF s X w0 w') w := by
+    wp sem (injS s) (renderStep i cb) b (fun _ w' => GF s X w0 w')
+      (fun _ _ w' => GF s X w0 w') w := by
+  have hr : GF s X w0 (apply (.render (w.iters i).data) w) := GF_render _ h hfin
+  unfold renderStep
+  wpgo
+  all_goals try wpgo
+  all_goals try gf
+  all_goals
+    refine cps hr (cbPart_spec i _ cb _ hr (by simpa using hfin)) ?_ ?_
+    · intro b' w' h' _ _; wpgo; all_goals gf
+    · intro b' e w' h' _ _; wpgo; all_goals gf
+end
+
+theorem genBody_spec {s X w0 w} (i : Nat) (cb : Option CbKind) (b : Bool) (h : GF s X w0 w)
+    (hfin : (w.objs (w.iters i).data).finalized = false) :
+    wp sem (injS s) (genBody i cb) b (fun _ w' => GF s X w0 w') (fun _ _ w' => GF s X w0 w') w := by
   unfold genBody
   wpgo
   all_goals first
     | (apply renderStep_spec <;> gf)
     | gf
 
-theorem nextP_spec {s X w0 w} (i : Nat) (b : Bool) (h : GF s X w0 w) (hi : i < w.nIters) :
-    wp sem (injS s) (nextP i) b (fun _ w' => GF s X w0 w') (fun _ _ w' => GF s X w0 w') w := by
+theorem nextP_spec {s X w0 w} (i : Nat) (b : Bool) (h : GF s X w0 w) (hi : i < w.nIters)
+    (cb : Option CbKind := none) :
+    wp sem (injS s) (nextP i cb) b (fun _ w' => GF s X w0 w') (fun _ _ w' => GF s X w0 w') w := by
   have hfin : (w.iters i).hasIterator = true → (w.objs (w.iters i).data).finalized = false := by
     intro hh
     have := h.g.itWf i hi
@@ -170,7 +222,7 @@ theorem nextP_spec {s X w0 w} (i : Nat) (b : Bool) (h : GF s X w0 w) (hi : i < w
   unfold nextP genNext
   wpgo
   all_goals try gf
-  refine cps h (genBody_spec i b h (hfin (by simp_all))) ?_ ?_
+  refine cps h (genBody_spec i cb b h (hfin (by simp_all))) ?_ ?_
   · intros; gf
   · intro b' e w' h' hn ho
     wpgo
@@ -182,8 +234,8 @@ theorem closeP_spec {s X w0 w} (i : Nat) (b : Bool) (h : GF s X w0 w) (hi : i < 
     wp sem (injS s) (closeP i) b (fun _ w' => GF s X w0 w') (fun _ _ w' => GF s X w0 w') w := by
   wpgo; gf
 
-theorem seekP_spec {s X w0 w} (i n : Nat) (b : Bool) (h : GF s X w0 w) :
-    wp sem (injS s) (seekP i n) b (fun _ w' => GF s X w0 w') (fun _ _ w' => GF s X w0 w') w := by
+theorem seekP_spec {s X w0 w} (i : Nat) (wh : Whence) (off : Int) (b : Bool) (h : GF s X w0 w) :
+    wp sem (injS s) (seekP i wh off) b (fun _ w' => GF s X w0 w') (fun _ _ w' => GF s X w0 w') w := by
   unfold seekP; wpgo; all_goals gf
 
 theorem ctlP_spec {s X w0 w} (i : Nat) (f : Ctl → Ctl) (b : Bool) (h : GF s X w0 w) :
@@ -572,7 +624,14 @@ theorem step_inv (s : Bool) (w : World) (op : Op) (f : Flt) (hadm : Admissible (
     | close i =>
       simp only [valid, Bool.and_eq_true, decide_eq_true_eq] at hv
       exact post_GF (wp_sound sem (injS s) _ f _ _ w (by simpa [injOp, isDirect] using hadm) (closeP_spec i _ h0 hv.1))
-    | seek i n => exact post_GF (wp_sound sem (injS s) _ f _ _ w (by simpa [injOp, isDirect] using hadm) (seekP_spec i n _ h0))
+    | seek i wh off =>
+      exact post_GF (wp_sound sem (injS s) _ f _ _ w (by simpa [injOp, isDirect] using hadm) (seekP_spec i wh off _ h0))
+    | set i k fr =>
+      exact post_GF (wp_sound sem (injS s) _ f _ _ w (by simpa [injOp, isDirect] using hadm) (ctlP_spec i _ _ h0))
+    | nextCb i cb =>
+      simp only [valid, Bool.and_eq_true, decide_eq_true_eq] at hv
+      exact post_GF (wp_sound sem (injS s) _ f _ _ w (by simpa [injOp, isDirect] using hadm)
+        (nextP_spec i _ h0 hv.1 (some cb)))
     | bump i => exact post_GF (wp_sound sem (injS s) _ f _ _ w (by simpa [injOp, isDirect] using hadm) (ctlP_spec i _ _ h0))
     | dropIter i =>
       simp only [valid, Bool.and_eq_true, decide_eq_true_eq] at hv
